@@ -52,6 +52,7 @@ func compareChain(sh chainShape, table map[byte]refmodel.Behaviour, st *fw.Stats
 					'C': "dynamic route on a caching router measured on the second identical request", 'X': "the router served a request that aborted and then panicked (no hook) before", 'D': "debug mode on",
 					'S': "group middleware added by separate Use calls and a sibling route with its own middleware registered afterwards",
 					'V': "middleware lists handed over as caller-owned spread slices with spare capacity which the caller then reuses for a second router (first global middleware) and for two sibling routes that add more with Route.Use (variadic route middleware)",
+					'Y': "the request goes to /fwd, whose first middleware forwards it with HandleContext to the measured route (/fwd's other handlers must not run)",
 					'K': "caching router; the measured chain belongs to a route registered for HEAD only on /x/{id}, a GET route with other middleware covers the same path; history GET, HEAD, then the measured HEAD request"}[h])
 			}
 			hooks = fmt.Sprintf(" on a router with %q (%s)", sh.Hooks, strings.Join(parts, "; "))
